@@ -20,15 +20,32 @@
  *                              (<cause> = cancel | rst | giveup | error | close | del); suffix :older-notification
  *                              when the Reset answered an older notification than the newest one
  *   retx-after:<cause>         retransmission of an already sent CON notification after that point
- *   observe-not-increasing:<op>, observe-regresses:reg-response
+ *                              (<cause> as above or rereg = its token was replaced by a re-registration)
+ *   observe-not-increasing:<op>                          Observe value not newer than an earlier notification's
+ *   observe-not-increasing:equals-earlier-reg-response   ... equal to the value in the response to a (re-)registration
+ *                              request (or a duplicate of it) answered between the change and the notification
+ *   observe-regresses:reg-response                       registration response older than an earlier notification
+ *   wire:observe-option-longer-than-3-bytes
  *   no-con-in-6, non-in-con-mode, con-in-non-always-mode
  *   stale-last-state:<op>      quiescent, still registered, newest notification older than the last change
+ *   stale-last-state:pending-without-timer   same, and libcoap still has the notification pending (observe_pending)
+ *                              while coap_io_prepare_io() announced no timer and nothing is in flight
  *   missed-notification:<op> / dup-entry:<op>   a fault free change produced 0 / more than 1 notification
  *   subscriber-count:extra|missing:<op>         resource->subscribers disagrees with the reference at the very end
  *                                               (cross-check, only when the wire checks found nothing)
- *   session-reclaimed-with-observers
+ *   session-reclaimed-with-observers, session-unreferenced-with-observers
  *   client:foreign-token       (lc family) the client's response handler got a token it never used
- * <op> is "rereg" when the entry had been re-registered, else the kind of the last script operation.
+ * <op> is "rereg" when the entry had been re-registered, else the kind of the last script operation ("probe" for
+ * the fault free changes after the script).
+ *
+ * Soundness notes.  Verdicts are taken at emission time (ns_on_send), so a notification that was already in flight
+ * when the deregistering event was processed is never blamed.  A deregistering event counts from the moment the
+ * server has processed it: Observe:1 request answered, RST handed to the server, NACK(TOO_MANY_RETRIES) callback,
+ * error response emitted, coap_delete_resource / coap_session_disconnected called.  A cancel that names another
+ * token than the current one, or a request that got no answer, leaves the entry in state MAYBE (no check applies).
+ * Registration responses (piggybacked ACKs) only have to be not older than earlier notifications; notifications
+ * proper have to be strictly newer than everything sent before for that (observer, resource, query), also across
+ * re-registration.  The NON run that must contain a CON restarts at every accepted (re-)registration.
  */
 #include "netsim.h"
 #include "wire.h"
@@ -1171,7 +1188,9 @@ main(int argc, char **argv) {
              "default / NOTIFY_CON / NOTIFY_NON_ALWAYS) observed by raw observers c1,c2 (and by a real libcoap client in the lc family); "
              "enumerated: every well-formed operation sequence over {reg, rereg, cancel (c,r,q), chg, chg3, err, del (r), rst, close, sil (c)} "
              "up to the family's depth (ill-formed ones such as cancel before reg pruned, raw observers interchangeable), each under all "
-             "network schedules with <= bound deviations (drop / duplicate / reorder of any datagram, operation or timer before delivery), "
+             "network schedules with <= bound deviations (drop / duplicate / reorder of any of the first 4 datagrams in flight -- Block2 follow-up "
+             "exchanges only in the blk / nofetch families --, next operation before delivery, timer before delivery / before the next "
+             "operation while a retransmission is queued or a notification is pending, RST verdict per notification in the vd family), "
              "then drained, idled 310 s, a stranger session with max_idle_sessions=1, and 2 (7 in default mode) fault-free probe changes; "
              "non-trivial = a deviation was taken, a retransmission or a deregistration by RST / time-out occurred; distinct = distinct observation logs");
   vx_ev_str("families", famdesc);
